@@ -17,17 +17,17 @@ func init() {
 // ---- receiver specifications shared with coq/Check/Codec.v ----
 
 type recvSpec struct {
-	ck    int // 0..3 exhaustive vector kinds, 4 hnsw, 5 bm25, 6 meta, 7 hybrid
-	vp    vecParams
-	hdim  int
-	hmet  int
-	hM    int
-	hefc  int
-	hefs  int
-	hasV  bool
-	sub   *recvSpec
-	hasT  bool
-	hasM  bool
+	ck   int // 0..3 exhaustive vector kinds, 4 hnsw, 5 bm25, 6 meta, 7 hybrid
+	vp   vecParams
+	hdim int
+	hmet int
+	hM   int
+	hefc int
+	hefs int
+	hasV bool
+	sub  *recvSpec
+	hasT bool
+	hasM bool
 }
 
 func (s recvSpec) enc(c *Case) {
@@ -235,12 +235,12 @@ func rndMeta(r *rand.Rand) map[string]interface{} {
 // buildState creates a reachable state of the given kind and returns its streams.
 type builtState struct {
 	hadDeleted bool
-	spec    recvSpec
-	src     loaded
-	stream  []byte // concatenated stream as the reader expects it
-	wn      int64  // bytes reported by WriteTo (single-stream kinds), -1 for hybrid
-	queries [][]float32
-	words   []string
+	spec       recvSpec
+	src        loaded
+	stream     []byte // concatenated stream as the reader expects it
+	wn         int64  // bytes reported by WriteTo (single-stream kinds), -1 for hybrid
+	queries    [][]float32
+	words      []string
 }
 
 func buildState(r *rand.Rand, ck int, t *Trace) builtState {
@@ -657,10 +657,28 @@ func genC16(r *rand.Rand, t *Trace, thorough bool) {
 		switch {
 		case s.ck <= 3:
 			alts := []func(p *vecParams) bool{
-				func(p *vecParams) bool { p.dim += p.m * 1; if p.m > 1 { p.dim = p.dim }; return true },
+				func(p *vecParams) bool {
+					p.dim += p.m * 1
+					if p.m > 1 {
+						p.dim = p.dim
+					}
+					return true
+				},
 				func(p *vecParams) bool { p.metric = (p.metric + 1) % 3; return true },
-				func(p *vecParams) bool { if p.kind == 1 || p.kind == 3 { p.nlist++; return true }; return false },
-				func(p *vecParams) bool { if p.kind >= 2 { p.nbits++; return true }; return false },
+				func(p *vecParams) bool {
+					if p.kind == 1 || p.kind == 3 {
+						p.nlist++
+						return true
+					}
+					return false
+				},
+				func(p *vecParams) bool {
+					if p.kind >= 2 {
+						p.nbits++
+						return true
+					}
+					return false
+				},
 				func(p *vecParams) bool {
 					if p.kind >= 2 {
 						for _, m := range []int{1, 2, 4, 8} {
